@@ -3,8 +3,8 @@ from harness import common, tstate, tsprop
 
 PROP = 'C07'
 DRIVER = 'TorState'
-LEAN_TARGETS = ['TxV.Props.C07']
-PROP_MODULES = ['TxV.Props.C07']
+LEAN_TARGETS = ['TxV.Props.C07', 'TxV.Props.C07b']
+PROP_MODULES = ['TxV.Props.C07', 'TxV.Props.C07b']
 AUDIT = 'Audit/C07.lean'
 ANCHORS = ['txtorcon/torstate.py', 'txtorcon/circuit.py', 'txtorcon/stream.py']
 RULE = ('real TorState bootstrapped over the real protocol against the fake Tor: a snapshot of 0-4 circuits and 0-2 streams through GETINFO '
